@@ -277,8 +277,12 @@ void StringDictionaryFMINDEX::build_ssa(uchar *text, size_t len,
   if (BWTsampling > 0) {
     uint samples = (len + 1) / BWTsampling + 1;
 
-    for (uint i = 0; i < samples; i++)
-      fm_index->suff_sample[i] = separators->rank1(fm_index->suff_sample[i]);
+    // The suffix starting at the final position (len) has no bit of its own
+    // in 'separators' (len bits): it belongs to the last string
+    for (uint i = 0; i < samples; i++) {
+      uint pos = fm_index->suff_sample[i];
+      fm_index->suff_sample[i] = separators->rank1(pos < len ? pos : len - 1);
+    }
   }
 }
 
